@@ -10,20 +10,23 @@ export CARGO_NET_OFFLINE=true
 demo_dst=tests/seeded_demo_$N.rs
 how=$(cat $D/demo$N.how 2>/dev/null | tr '\n' ' ')
 # demos that are unit tests inside src are given as a diff (demoN.diff); integration tests as demoN.rs
+RUN="cargo test --offline --test seeded_demo_$N"
 if [ -f $D/demo$N.rs ]; then cp $D/demo$N.rs $demo_dst; fi
+if [ -f $D/demo$N.diff ]; then git apply $D/demo$N.diff || echo "DEMO DIFF APPLY FAILED"; RUN="cargo test --offline --lib seeded_demo_$N"; fi
+if grep -q -- "--release" $D/demo$N.how 2>/dev/null; then RUN="$RUN --release"; fi
 {
 echo "### seed $D change$N ; how: $how"
 echo "--- demo on the unmodified tree (must PASS)"
-cargo test --offline --test seeded_demo_$N 2>&1 | grep -E "^test result|^test .* (ok|FAILED)|error(\[|:)" | head -20
+$RUN 2>&1 | grep -E "^test result|^test .* (ok|FAILED)|error(\[|:)" | head -20
 r0=${PIPESTATUS[0]}
 echo "rc_demo_clean=$r0"
 git apply $D/change$N.diff || echo "APPLY FAILED"
 echo "--- demo with the change (must FAIL)"
-cargo test --offline --test seeded_demo_$N 2>&1 | grep -E "^test result|^test .* (ok|FAILED)|error(\[|:)" | head -20
+$RUN 2>&1 | grep -E "^test result|^test .* (ok|FAILED)|error(\[|:)" | head -20
 r1=${PIPESTATUS[0]}
 echo "rc_demo_changed=$r1"
 echo "--- pinned suite with the change (must match the baseline: only the 2 known failures)"
-rm -f $demo_dst
+rm -f $demo_dst; if [ -f $D/demo$N.diff ]; then git apply -R $D/demo$N.diff; fi
 cargo test --workspace --no-fail-fast --offline 2>&1 | grep -E "^test result|FAILED|failed" | head -20
 echo "rc_suite=${PIPESTATUS[0]}"
 } > $LOG 2>&1
